@@ -57,6 +57,7 @@ def do_replay(path):
     with open(path) as f:
         doc = json.load(f)
     world = make_world(doc['property'], doc.get('tier', 'quick'))
+    core.run_prelude(world, doc.get('prelude'))
     v = core.replay_ops(world, doc.get('leg', 'main'), doc['config'], doc['ops'], strict=True)
     if v is None:
         print('REPLAY-CLEAN property=%s file=%s' % (doc['property'], path))
@@ -132,11 +133,24 @@ def main():
     for sig, rs in list(by_sig.items())[:6]:
         r = min(rs, key=lambda x: x['n_ops'])
         ops, tests, reproduced = core.minimise(world, r['leg'], r['cfg'], r['ops'], sig, budget_s=min_budget)
+        prelude = None
+        if not reproduced:
+            # not reproducible alone: does it depend on the runs executed before it in the same process?
+            cands = sorted((x for x in rs if x.get('chunk_prefix')), key=lambda x: len(x['chunk_prefix']))
+            for x in cands[:3]:
+                pre = core.minimise_prelude(world, x['leg'], x['cfg'], x['ops'], sig, {'leg': x['leg'], 'indices': x['chunk_prefix'], 'verif_seed': verif_seed}, budget_s=min_budget)
+                if pre is not None:
+                    r, prelude = x, pre
+                    ops, tests, reproduced = core.minimise(world, r['leg'], r['cfg'], r['ops'], sig, budget_s=min_budget, prelude=prelude)
+                    break
         if not reproduced:
             print('HARNESS-ERROR: violation %s of run %s/%d does not reproduce from its own trace' % (sig, r['leg'], r['run_index']))
             return 2
-        v = core.replay_ops(world, r['leg'], r['cfg'], ops)
-        path = core.write_replay(world, r, ops, v, len(r['ops']), verif_seed, commit)
+        v = core.replay_isolated(world, r['leg'], r['cfg'], ops, prelude)
+        if prelude:
+            v['message'] = ('[appears only after generated runs %s of leg %s were executed earlier in the same process: state is kept between unrelated calls] '
+                            % (prelude['indices'], prelude['leg'])) + v['message']
+        path = core.write_replay(world, r, ops, v, len(r['ops']), verif_seed, commit, prelude)
         if not os.environ.get('VERIF_NO_CONFIRM'):
             ok, out = core.confirm_in_fresh_interpreter(path, sig)
             if not ok:
